@@ -103,6 +103,9 @@ func drawCodec(rt *rapid.T, depth int) *codecSpec {
 		if rapid.Bool().Draw(rt, "with-ttl") {
 			// from seconds to a "remember me" cookie of twenty years
 			c.ttl = time.Duration(rapid.SampledFrom([]int{1, 5, 60, 3600, 86400 * 30, 86400 * 365 * 20}).Draw(rt, "ttl-s")) * time.Second
+			if rapid.IntRange(0, 3).Draw(rt, "fractional-ttl") == 0 {
+				c.ttl = time.Duration(rapid.SampledFrom([]int{1500, 2500, 2999, 10001}).Draw(rt, "ttl-ms")) * time.Millisecond
+			}
 		}
 	case "fallback":
 		c.from = drawCodec(rt, depth-1)
